@@ -31,7 +31,7 @@ func init() {
 		Run: runATOMICFILE,
 	})
 	Register(&Rule{
-		ID: "ERRPROP_BACKEND", Props: []string{"C18"}, Min: 5,
+		ID: "ERRPROP_BACKEND", Props: []string{"C18", "C03"}, Min: 5,
 		Doc: "in Load/Store of every mast.Persist implementation of the three backend packages (and the helpers they call), on every feasible " +
 			"path on which a call's error result is non-nil the method returns a non-nil error, unless a predicate (os.IsNotExist, errors.Is, == sentinel) " +
 			"classified the error positively; checked-and-discarded errors are findings.",
@@ -1609,7 +1609,7 @@ func absOfParam(v ssa.Value, st ssa.Instruction) (*ssa.Parameter, bool) {
 
 func init() {
 	Register(&Rule{
-		ID: "STOREALIAS", Props: []string{"C18"}, Min: 2,
+		ID: "STOREALIAS", Props: []string{"C18", "C02"}, Min: 2,
 		Doc: "a backend does not share byte slices with its callers: Store never keeps its bytes parameter (or a reslice of it) in state " +
 			"reachable from the receiver after it returns — only a complete copy — and Load never returns a slice that is (part of) the stored " +
 			"state; otherwise reusing the buffer after Store, or writing into what Load returned, changes the stored node.",
